@@ -62,11 +62,41 @@ CLAIMS = {
         'subscribe/unsubscribe acknowledgements incl. idempotence and the single ack for an empty unsubscribe, channels_global. Pattern matching is glob_correct (C16). ' + TIE +
         'Monitor: an independent Python reference of the subscription tables using a port of Redis glob.',
         note=NOTE + 'KF-1: (P)SUBSCRIBE inside MULTI crashes at EXEC.', technique='Lean 4 theorems over the StateM model + multi-connection correspondence + reference monitor', design='7 C10'),
- 'C11': dict(text='Partial: the blocking state machine (attempt, park, wake-up re-check, time-out) is part of the executable model; an explicit scheduler runs the real _blocking code in worker threads with a '
+ 'C11': dict(text='Lean theorems: a pass serves the first key (in the order given) holding a live non-empty list and takes exactly one element (bpopPass_served_in_key_order), returns nothing iff none does '
+        '(bpopPass_none_iff), WRONGTYPE only on the first pass, every modified write-back wakes every connection parked on that database (push_wakes_parked, notify_wakes_all_parked), '
+        'never parks inside MULTI/EXEC, a wake-up either serves with exactly one reply or leaves the client parked, a time-out reply only if unserved and the deadline passed. '
+        'Partial beyond that: the blocking state machine (attempt, park, wake-up re-check, time-out) is part of the executable model; an explicit scheduler runs the real _blocking code in worker threads with a '
         'hand-off condition variable so that every order of critical sections is an event list replayed on the model (replies, parked set and notified flags compared). Monitors: conservation of '
         'elements, no parked un-notified consumer on a non-empty list, never parks inside EXEC, wait() arguments within the requested time-out; plus a real-thread smoke run.',
         note=NOTE + 'threading.Condition, real time-outs and the GIL are not in the model (runtime behaviour it cannot exhibit).',
-        technique='executable Lean model + scheduler-driven trace correspondence (proof obligations: bridge theorems only)', design='7 C11'),
+        technique='Lean 4 theorems on the blocking state machine + scheduler-driven trace correspondence', design='7 C11'),
+ 'C12': dict(text='Partial. Lean theorems about the lockset discipline: for every well-locked trace of lock operations, shared-object accesses and command call/return events, the '
+        'access sequence is the concatenation of the critical sections in acquisition order (welllocked_serial), the section order respects real-time precedence and program order, and '
+        'the commands at their last critical section form a valid linearization order (linearization_exists); the executable checker agrees with the specification (checker_agrees). '
+        'Tie: real threads (2-8, switch interval 1e-6) run command programs on a FakeServer whose lock, database dictionaries, database table and subscriber tables are instrumented; the '
+        'compiled Lean checker validates every recorded trace and the commands are replayed in the proven linearization order through the sequential model, comparing every reply; '
+        'concurrent first connections are a separate scenario.',
+        note=NOTE + 'Not proved: that every schedule of the Python code is well-locked (bytecode pre-emption is outside the model); the evidence reports how many real traces were validated.',
+        technique='Lean 4 lockset serialisability theorem + trace validation of real-thread runs against the sequential model', design='7 C12'),
+ 'C14': dict(text='Lean theorems: for every command other than the three blocking pops (and scripts) the asyncio mode and the sync mode of the model are the same function (special_mode_irrelevant_nonblocking, '
+        'processCommand_mode_irrelevant, EXEC included); a blocking pop served at once or inside MULTI behaves identically; otherwise it parks and pauses only its own connection '
+        '(blockingAsync_parks_and_pauses, only_own_connection_suspends), a paused connection only buffers (paused_buffers), and the re-try task emits exactly one reply before resuming the parser '
+        '(wakeConnAsync_one_reply, timeoutConnAsync_one_reply). Tie: the real AsyncFakeSocket, its re-try task and async_timeout run under a virtual-time event loop against the same Lean model '
+        'as the sync socket (all command families, blocking pops served / timed out, requests pipelined behind them).',
+        note=NOTE + 'Partial: the real event loop and async_timeout are replaced by a virtual-time SelectorEventLoop; the reply-first ordering theorem is conditional on processCommand only appending to the output.',
+        technique='Lean 4 theorems on the asyncio mode of the model + virtual-time-loop correspondence', design='7 C14'),
+ 'C19': dict(text='Partial. The script bridge is part of the executable model: argument conversion, result conversion in both directions (ok/err tables, truncation at nil, float->int, true->1, false->nil), the '
+        'no-script flag, numkeys validation, error wrapping per version, the script cache commands. The Lua host is external: a stand-in host runs the scripts and the harness records every redis.call / '
+        'pcall with its Lua arguments and the value handed back to Lua, plus the final Lua value; the model re-executes each call with the runner used for direct commands (from_script = True), '
+        'checks it computes the same value the host received, and converts the final value. Proof obligations: bridge theorems (signatures, messages).',
+        note=NOTE + 'lupa is not installed: harness/lupa_standin (a Lua-subset interpreter) is part of the trusted base; SHA-1 is external (passed as a hint); EVAL queued inside MULTI is not modelled.',
+        technique='executable Lean model of the bridge + trace correspondence on a stand-in Lua host', design='7 C19'),
+ 'C20': dict(text='Lean theorems: outage_no_effect (while disconnected every write raises ConnectionError and the state is unchanged), reconnect_restores, closed_socket_forgotten (after close and the clean-up run by the '
+        'next command of any client the connection is in no subscriber set, has no watches and PUBLISH never delivers to it), gc_equivalent_to_close, cleanup_idempotent_for_others, '
+        'other_exec_ignores_queue_regular. Tie: outage toggles, close and GC events inserted in multi-connection histories on the real sockets; redis-py level: every command raises ConnectionError '
+        'during an outage and data/TTLs/scripts are as before afterwards; clients closed, pool-disconnected or garbage-collected while subscribed / watching / mid-transaction leave no trace.',
+        note=NOTE + 'Partial: GC timing and weak-reference callbacks are CPython behaviour; the harness forces gc.collect().',
+        technique='Lean 4 theorems on the life-cycle events of the model + correspondence + client-level monitor', design='7 C20'),
  'C13': dict(text='Lean theorems: a regular command changes only the selected database and its reply is independent of the others (regular_frame_other_dbs, regular_independent_of_other_dbs); '
         'SELECT persists per connection; a new connection starts on db 0. ' + TIE + 'Monitor: frame condition on the implementation for every command except MOVE/SWAPDB/FLUSHALL.',
         note=NOTE + 'Client construction forms (server=, from_url, asyncio) are exercised by the client-level harness when available.',
